@@ -117,6 +117,10 @@ func DecodeSenc(hdr BoxHeader, startPos uint64, r io.Reader) (Box, error) {
 		return nil, err
 	}
 
+	if len(data) < 8 {
+		return nil, fmt.Errorf("senc: box size %d less than 16", hdr.Size)
+	}
+
 	versionAndFlags := binary.BigEndian.Uint32(data[0:4])
 	version := byte(versionAndFlags >> 24)
 	flags := versionAndFlags & flagsMask
@@ -124,10 +128,6 @@ func DecodeSenc(hdr BoxHeader, startPos uint64, r io.Reader) (Box, error) {
 		return nil, fmt.Errorf("version %d not supported", version)
 	}
 	sampleCount := binary.BigEndian.Uint32(data[4:8])
-
-	if len(data) < 8 {
-		return nil, fmt.Errorf("senc: box size %d less than 16", hdr.Size)
-	}
 
 	senc := SencBox{
 		Version:          version,
